@@ -374,10 +374,19 @@ class UnitBuild:
         if open_wrap is not None:
             self.gen.add('}', 'gen')
         if getattr(self, 'atoms_at', None) is not None:
-            alltext = '\n'.join(l for l, o in zip(self.gen.lines, self.gen.origin) if o[0] in ('repo', 'contract', 'prelude'))
-            locals_ = sorted(set(re.findall(r'local_name!\(\s*"([^"]*)"\s*\)', alltext)))
-            nss = sorted(set(re.findall(r'\bns!\(\s*(\w*)\s*\)', alltext)))
-            prefixes = sorted(set(re.findall(r'namespace_prefix!\(\s*"([^"]*)"\s*\)', alltext)))
+            alltext = '\n'.join(l for l, o in zip(self.gen.lines, self.gen.origin) if o[0] in ('repo', 'contract', 'prelude', 'generated'))
+            en = re.findall(r'expanded_name!\(\s*(\w+)\s+"([^"]*)"\s*\)', alltext)
+            mc = []
+            for mm in re.finditer(r'declare_tag_set!\(', alltext):
+                close = alltext.find(');', mm.end())
+                mc += re.findall(r'"([^"]*)"', alltext[mm.end():close if close > 0 else None])
+            locals_ = sorted(set(re.findall(r'local_name!\(\s*"([^"]*)"\s*\)', alltext)) | set(l for _, l in en) | set(mc))
+            nss = sorted((set(re.findall(r'\bns!\(\s*(\w*)\s*\)', alltext)) | set(n for n, _ in en) | set(re.findall(r'expanded_name!\(\s*(\w+)\s+\$', alltext))) - set(['$ns']))
+            qn3 = re.findall(r'qualname!\(\s*"([^"]*)"\s+(\w+)\s+"([^"]*)"\s*\)', alltext)
+            qn2 = re.findall(r'qualname!\(\s*""\s*,\s*"([^"]*)"\s*\)', alltext)
+            locals_ = sorted(set(locals_) | set(l for _, _, l in qn3) | set(qn2))
+            nss = sorted(set(nss) | set(n for _, n, _ in qn3) | (set(['']) if qn2 else set()))
+            prefixes = sorted(set(re.findall(r'namespace_prefix!\(\s*"([^"]*)"\s*\)', alltext)) | set(p for p, _, _ in qn3))
             ap = self.atoms_part
             self.atom_table = dict(local={n: i + 1 for i, n in enumerate(locals_)}, ns={n: i + 1 for i, n in enumerate(nss)},
                                    prefix={n: i + 1 for i, n in enumerate(prefixes)})
